@@ -13,7 +13,8 @@
 (*                    mappings: tap / hold are plain output keys),         *)
 (*             max  : dynamic-macro-max-presses,                           *)
 (*             recorded : BOOLEAN (replay delay behaviour),                *)
-(*             gcap : cap of the recorded gaps ]                           *)
+(*             gcap : cap of the recorded gaps (> T + Margin, or 0 when   *)
+(*                    no gap is ever read) ]                              *)
 (*                                                                         *)
 (* Two independent parts:                                                  *)
 (*  (R) bookkeeping of what a macro holds - a function of the input stream *)
@@ -40,7 +41,7 @@
 EXTENDS Obs
 Ref == INSTANCE P_C04
 
-Margin == 2          \* pacing slack around a tap-hold timeout (ticks)
+Margin == 1          \* pacing slack around a tap-hold timeout (ticks)
 ConstPace == 5       \* `constant` replay delay behaviour: one event per 5 ticks (Appendix A)
 
 Lookup(tab, c) == LET I == {i \in DOMAIN tab : tab[i].c = c} IN
@@ -162,7 +163,7 @@ Typing(p, ref, items) ==
            IF ev.p /\ Len(items) >= 2 /\ items[2][1] = "e" /\ ~items[2][2].p /\ items[2][2].c = ev.c
            THEN LET g == IF p.recorded THEN OMax(1, ev.g) ELSE ConstPace
                     k == IF g + Margin < th[1].T THEN th[1].tap
-                         ELSE IF g > th[1].T + Margin /\ ev.g < p.gcap THEN th[1].hold ELSE 0 - 1
+                         ELSE IF g > th[1].T + Margin THEN th[1].hold ELSE 0 - 1
                     t == Typing(p, ref, Tail(Tail(items)))
                 IN IF k < 0 THEN [ref |-> ref, out |-> <<>>, ok |-> FALSE]
                    ELSE [t EXCEPT !.out = <<<<"o", <<"d", k>>>>, <<"o", <<"u", k>>>>>> \o @]
